@@ -22,6 +22,33 @@ P = {
                       dict(cmd="c23ms", quick=1, thorough=1, model=False)], vm_k=20),
     "C28": dict(theorems=["Properties/C28.v"],
                 runs=[dict(cmd="c28", quick=40, thorough=3000, shards_thorough=8)], vm_k=12),
+    "C01": dict(theorems=["Properties/C01.v"],
+                runs=[dict(cmd="c01", quick=10, thorough=1500, shards_thorough=8, model=False),
+                      dict(cmd="ledger", quick=60, thorough=6000, shards_thorough=8)], vm_k=4),
+    "C03": dict(theorems=["Properties/C03.v"],
+                runs=[dict(cmd="c03", quick=80, thorough=8000, shards_thorough=8)], vm_k=4),
+    "C04": dict(theorems=["Properties/C04.v"],
+                runs=[dict(cmd="c04", quick=80, thorough=8000, shards_thorough=8)], vm_k=4),
+    "C05": dict(theorems=["Properties/C05.v"],
+                runs=[dict(cmd="c05", quick=80, thorough=8000, shards_thorough=8)], vm_k=4),
+    "C06": dict(theorems=["Properties/C06.v"],
+                runs=[dict(cmd="c06", quick=80, thorough=8000, shards_thorough=8)], vm_k=4),
+    "C21": dict(theorems=["Properties/C21.v"],
+                runs=[dict(cmd="c21", quick=80, thorough=8000, shards_thorough=8)], vm_k=4),
+    "C22": dict(theorems=["Properties/C22.v"],
+                runs=[dict(cmd="c22", quick=80, thorough=8000, shards_thorough=8)], vm_k=4),
+    "C26": dict(theorems=["Properties/C26.v"],
+                runs=[dict(cmd="c26", quick=80, thorough=8000, shards_thorough=8)], vm_k=4),
+    "C27": dict(theorems=["Properties/C27.v"],
+                runs=[dict(cmd="c27", quick=80, thorough=8000, shards_thorough=8)], vm_k=4),
+    "C17": dict(theorems=["Properties/C17.v"],
+                runs=[dict(cmd="c17", quick=9, thorough=600, shards_thorough=8)], vm_k=3),
+    "C18": dict(theorems=["Properties/C18.v"],
+                runs=[dict(cmd="c18", quick=30, thorough=1500, shards_thorough=8)], vm_k=12),
+    "C12": dict(theorems=["Properties/C12.v"],
+                runs=[dict(cmd="c12", quick=6000, thorough=240000, shards_thorough=4)], vm_k=44),
+    "C24": dict(theorems=["Properties/C24.v"],
+                runs=[dict(cmd="c24", quick=300, thorough=20000, shards_thorough=4)], vm_k=40),
     "C09": dict(theorems=["Properties/C09.v"],
                 runs=[dict(cmd="appdb", quick=300, thorough=20000, shards_thorough=4),
                       dict(cmd="c09", quick=16, thorough=600, shards_thorough=8, model=False)]),
@@ -51,6 +78,11 @@ NOT_YET = {}
 TB = ("Trusted: Coq kernel + vm_compute; no axioms (Print Assumptions checked each run); extraction ExtrOcamlBasic+ExtrOcamlZBigInt cross-checked by "
       "vm_compute on a sample each run; translators (harness/cmd/xlate), Go harness, OCaml driver; the Go source is modelled, tied by regenerated "
       "constants and differential execution; math/big, IAVL, tm-db, crypto trusted. ")
+LM = ('Ledger model (coq/Model/Ledger.v): ExecutorV3.RunTx gate (chain id, gas coin, payload limits, multisig signatures with the uint32 weight sum, nonce, price), Run of ten transaction types '
+      '(Send, Multisend, Create/Recreate/Mint/Burn token, Lock, RedeemCheck, CreateMultisig, EditCoinOwner) as validate-then-effects, the failed-transaction fee branch, the ticker-fee burn, frozen-fund maturity; '
+      'run against the real node transaction by transaction (check mode on the in-flight state, then DeliverTx: code, payer balance, nonce, reward pool) and block by block (all balances, nonces, coins, owners). ')
+LN = TB + ("MODELLED SUBSET: ten transaction types, base-coin price table, gas coin = base coin (a custom gas coin without pool/reserve route is modelled as 'cannot pay'); swap-pool, bancor, staking and governance transactions are not in this model "
+           "(pools/orders: C13/C14 models; staking: C16-C18; rewards: C19/C28) - for them only the node-level monitors speak. Signature recovery is abstract: recovered signers / proof verdicts are inputs computed by the real crypto. ")
 META = {
     "C13": dict(text="Theorems over unbounded Z for every reserve, amount and order book: plain trades and order-crossing trades (for ANY value of the float/sqrt oracle) keep r0*r1 and leave reserves positive; add-then-remove and proportional-share bounds; minimum liquidity. The Coq model is the transliterated PairV2 arithmetic and is run against the real PairV2 on every check (pure ops, stateful pool+orders histories with commits/restarts, big.Float ops).",
                 note=TB + "Caches of orderV2.go (lazy loading) are not modelled: compared with the abstract book differentially. 'Minimum liquidity stays locked at the zero address' relies on C05 (nobody signs for the zero address).",
@@ -84,6 +116,63 @@ META = {
         text="Theorems over unbounded Z for every history of blocks: BeginBlock changes reward / safe reward / price record only on a period-start block with hour 12..14 and more than 3 h after the stored update (or zeroes them at the cap), and does update there; the percentage is the floor of the exact change (drop iff new price < 91 % of the stored one); a drop gives validators' reward 0, off, safe = price-derived; recovery adds exactly 10 BIP per qualifying update up to the price-derived level (closed form for n updates); below the cap every block adds exactly the safe reward to the emission, credits safe-reward to the zero address and mints reward+burn (= emission growth in all reachable states); at/after the 10^10 BIP cap nothing changes any more and rewards are 0 (induction over histories); the cap can be overshot by less than one block's reward; the t.IsZero() branch is dead after InitChain; a zero stored reserve panics. Constants (cap, 350, 1e18, 100, -10, 10 BIP, 12/14 h, 3 h, offset 1) are regenerated from the Go source by xlate. The model runs against the real node block by block (reward, safe reward, stored record, emission, zero-address credit, minted base coin) and against AppDB.UpdatePriceFix alone on boundary inputs.",
         note=TB + "PARTIAL in one value: priceCount = Int(350*1e18*(r1/r0)^0.25) (math.Pow) is an oracle, validated on every observed value against the exact integer 4th root within 2^-40 (+1 pip); observed agreement >= 57 bits. UpdatePriceBug (before v320) and the one-off v330 emission fix are not modelled. A genesis price record with a zero reserve (cannot come from an export: reserves of an existing pool are positive) panics in the first window: excluded from the generators (wf_genesis), theorem C28_zero_stored_reserve_panics states it, replay `vharness c28 ... zerobip`.",
         technique="Coq proof (lia, induction over histories / update lists) + regenerated constants + differential correspondence on the real node and on AppDB + monitors"),
+    "C01": dict(text="Theorems (induction over histories): for every history of transactions and block phases of the ledger model, every custom coin keeps volume = balances + frozen funds, and base-coin holdings + reward pool change only by what EndBlock hands to the reward accrual (whose own conservation is C19; emission C28; pool trades C13). " + LM + "The whole node (all 38 transaction types, rewards, slashing, orders) is watched by a monitor that recomputes every sum of the property from the export after every block.",
+                note=LN + "The base-coin emission statement at node level is checked by the monitor; in Coq it is split into C01 (transactions), C19 (accrual/payout), C28 (emission).",
+                technique="Coq proof (effect-list algebra, induction over histories) + differential correspondence on the real node + conservation monitor on node exports"),
+    "C03": dict(text="Theorems: a rejected DeliverTx leaves nonces, coins, owners, checks, multisigs, frozen funds untouched and changes exactly one balance - the payer's (sender / check issuer) gas-coin balance - by min(balance, failure fee), credited to the reward pool; an accepted one had the next nonce and advances exactly its sender's nonce by one; Run yields effects only after all checks passed. " + LM,
+                note=LN + "Found and repaired with this check: f5184b1 (CreateToken with gas price 0 was applied and then reported as failed).",
+                technique="Coq proof (case analysis over Run by Ltac, effect-list algebra) + differential correspondence on the real node + frame monitors"),
+    "C04": dict(text="Theorems: acceptance implies chain id = network and nonce = last + 1; nonces never decrease along any history; once accepted, the same transaction or any transaction of that sender with a nonce not above it is rejected with the state untouched after any further history. " + LM + "The harness re-delivers earlier bytes, stale and future nonces.",
+                note=LN, technique="Coq proof (monotone nonce invariant over histories) + differential correspondence on the real node + replay monitors"),
+    "C05": dict(text="Theorems: if any delivered transaction (accepted or rejected) decreases a balance of account a, the multisig gate passed and a is the sender or the issuer of the redeemed check; the multisig gate means: account exists, <= 32 and <= #owners signatures, all recoverable and distinct, uint32 weight sum of listed owners >= threshold. " + LM + "Monitors on the node: every balance decrease is attributable to the sender/payer.",
+                note=LN + "Stakes, waitlist, orders, candidate settings: node-level monitors of C14/C16/C18 and the ledger histories; not modelled here.",
+                technique="Coq proof (sign analysis of effect lists) + differential correspondence on the real node + attribution monitor"),
+    "C06": dict(text="Theorem: check mode accepts iff deliver mode on the same state accepts (gas-price floor 0, empty mempool); the deliver-only branches never flip the verdict. " + LM + "Every generated transaction is run through check-mode RunTx on the in-flight state and then delivered; verdicts compared.",
+                note=LN + "Found and repaired with this check: f5184b1.",
+                technique="Coq proof (shared validation, deliver-only branches total) + differential check-vs-deliver on the real node"),
+    "C21": dict(text="Theorems: a successful redemption required block <= due block, right network, a proof valid for the redeemer, gas coin = the check's, gas price 1, check unused; it moves exactly value of coin issuer->redeemer and the fee from the issuer; the used set only grows; a check identity redeemed once is rejected forever after (any redeemer, any history, both modes). " + LM + "Checks are issued with real keys; forged, foreign, expired, wrong-network, replayed variants.",
+                note=LN + "The code accepts the due block itself (DueBlock = last block in which the check can be used); the theorem states <=. ECDSA/Keccak trusted.",
+                technique="Coq proof (monotone used-set invariant over histories) + differential correspondence on the real node + double-redemption monitor"),
+    "C22": dict(text="Theorems: every creation uses id = counter + 1 and sets the counter; along any history ids stay <= counter and the counter never decreases (ids never reused); create requires an unused ticker and makes the sender owner; recreate / edit owner / mint only by the ticker owner; recreate versions the old coin (max+1 mod 2^16) and gives the new one a fresh id and version 0; mint only on the active mintable coin within max supply. " + LM + "Registry monitors on node exports (unique active tickers, unique ids, counter).",
+                note=LN + "Ticker uniqueness over histories is checked by the monitor and by the model differential, not yet proved as an invariant; the uint16 version wrap after 65535 recreations is stated in the theorem (mod 2^16). Pool-token creation (CreateSwapPool) is not in this model.",
+                technique="Coq proof (per-type specifications, id invariant over histories) + differential correspondence on the real node + registry monitors"),
+    "C26": dict(text="REFUTED for the code, proved: a transaction failing inside Run is charged the failure fee, keeps its nonce, and is charged again on re-delivery (C26_refuted, witness evaluated in Coq; reproduced on the node: KNOWN FINDING c26-failed-redelivery). Proved partial results: after a successful delivery every re-delivery is rejected with the state untouched; gate rejections never charge; one failing delivery costs at most the failure fee and at most the balance. " + LM + "The harness re-delivers earlier bytes (accepted and failed) and watches the payer.",
+                note=LN + "Repair would need replay protection keyed by tx hash (new consensus state); C03 forbids advancing the nonce on failure: recorded as known finding, not patched.",
+                technique="Coq proof (refutation witness + partial theorems) + differential correspondence on the real node + re-delivery monitor"),
+    "C27": dict(text="Theorems: an accepted transaction paid in base coin adds gas price x (type price + (payload+service bytes) x byte price) to the reward pool, less the ticker fee of a coin creation which goes from the reward pool to the zero address; a rejected one adds at most the failed-transaction price; type prices per table entry (Multisend base + delta x (n-1), ticker by length). " + LM + "Monitor: reward-pool growth per accepted transaction against the price table.",
+                note=LN + "Custom-coin commission (pool route vs reserve route) and a price table denominated in a custom coin are exercised at node level only (c01/c07 histories), not modelled.",
+                technique="Coq proof (effect-list algebra) + differential correspondence on the real node + price-table monitor"),
+    "C17": dict(text="Theorems over unbounded Z for every candidate list, stake vector and bip oracle: the selection is at most 64, all online with >=1000 BIP, non-increasing, a sub-multiset, and leaves no eligible candidate out unless all 64 seats hold at least its stake (equal stakes: larger ID first); power = max 1 floor(stake*10^8/total), monotone, <=10^8, division never panics; exactly the non-validators ranked beyond 100 are deleted and every stake and update becomes a frozen fund of equal value due at height+UnbondPeriod; with 1000 full slots an update replaces the first minimum-bip slot iff it is not smaller, the loser is kicked with its full value, nothing is lost per (owner, coin), totalBipStake = sum of slot bips, slots <= 1000, losers never exceed anyone who stays. The model is run against the real node for every updateValidators (genesis import + InitChain, period blocks, validator drops).",
+                note=TB + "Custom-coin bip values enter as the coinsCache pair (B, V) computed with the real formula package. Holes in the slot array (after unbonds) are covered by the theorems but not generated by the harness. Found and repaired with this check: c13a3df (candidates removed at genesis import were frozen into the past).",
+                technique="Coq proof (stable insertion sort, Permutation/StronglySorted, induction over slots and updates, lia) + regenerated constants + differential correspondence on the real node + monitors"),
+    "C18": dict(text="Theorems over Z for every vote history and every stake/fund list: the 24-bit window holds exactly the misses of the last 24 heights; on the first block with more than 12 of 24 misses the validator is dropped, its candidate set offline, and jailed until h+JailPeriod iff the block is not a grace block, otherwise nothing happens; SetCandidateOnline is rejected exactly while block <= JailedUntil; the byzantine slash is the rounded-up 5 % (kept part floor(95v/100), fund + slash = v, due h+UnbondPeriod, stake 0), frozen funds of the candidate in [h, h+UnbondPeriod] likewise, all others untouched, total-slashed grows by the base-coin slashes plus the oracle sale returns; evidence against unknown/offline/non-validator addresses changes nothing; a second piece of evidence (same or later block) against the now offline candidate changes nothing, and the punished validator is never re-admitted by that block's validator update. The model is run against the real node: vote histories, switch-on attempts and every evidence block.",
+                note=TB + "Grace bit, validator-list membership and the sale-return oracle are inputs observed or replayed (formula.CalculateSaleReturn) by the harness. Found and repaired with this check: b9d9852 (punished candidate stayed online: duplicate evidence slashed twice, pending delegations kept the validator in the set). Pending stake updates are not slashed (they are not 'stakes' in the property's vocabulary).",
+                technique="Coq proof (induction over vote histories with a sliding-window invariant, lia over floor division) + regenerated constants + differential correspondence on the real node + monitors"),
+    "C12": dict(
+        text="Theorems over unbounded Z, every crr 10..100: the exact curve values (largest integers satisfying "
+             "(y+s)^100 r^c <= (r+d)^c s^100 etc., computed by a verified bisection) are >= 0, <= reserve, monotone in the "
+             "amount, sell-all = reserve, buy-then-sell <= paid; the integer branches of formula.go (amount 0, crr 100, "
+             "sell = supply) equal the curve exactly; tolerance transfer; check_within decides "
+             "|f-ideal| <= 2^-33 ideal + 1 exactly. The four real formula.Calculate* functions are called on sampled "
+             "inputs and each result is checked by the extracted Coq checker and by direct monitors.",
+        note=TB + "PARTIAL: 'the 100-bit big.Float branch is within 2^-33*ideal+1' is validated on samples (observed max "
+             "2^-43.9 for supply,reserve < 2^96), not proved; the round-trip transfer is proved only when the purchased "
+             "amount does not exceed the curve. KNOWN FINDING c12-tolerance-above-2^96: supply > 2^96 breaks the tolerance (100-bit mantissa).",
+        technique="Coq proof (bisection spec, monotone powers, nia/lia) + exact-arithmetic check of every sampled Go result + monitors"),
+    "C24": dict(
+        text="Theorem: for every history of AddEvent/CommitEvents/restart/LoadEvents on the events store "
+             "(model of store.go+types.go with the Go integer widths as parameters) with at most 65534 distinct "
+             "validator keys and 2^32-1 distinct addresses, every LoadEvents returns exactly the batch last "
+             "committed at that height (all 12 event kinds, nil unbond keys, restarts anywhere); the full property "
+             "('however many keys') is REFUTED in Coq at the real uint16 width (65535 keys + restart => nil "
+             "dereference in reward.compile) and on the real store; the model is run against the real "
+             "NewEventsStore over a MemDB incl. 65537 keys and 301000 addresses.",
+        note=TB + "tmjson (de)serialisation abstract (identity), exercised by the differential. KNOWN FINDING "
+             "c24-pubkey-id-wrap: pubkey ids are uint16 (store.go:242/248/256) - at 65535 distinct validator "
+             "keys a restart loses the whole key table, the 65536th key gets id 0 ('no key'), the 65537th "
+             "collides with id 1. A repair changes the on-disk id format (docs/proposals/c24_fix_proposal.patch); recorded, not applied.",
+        technique="Coq proof (representation invariant over fold of operations; width-generic wrap lemmas; "
+                  "vm_compute witness) + differential against the real store + field-by-field monitors"),
     "C09": dict(text="Theorem (appdb layer, complete): for every history of blocks (arbitrary programs over the appdb API) with any restarts, every getter (height, hash, validators, block times, versions, emission, price) returns what a never-restarted node returns; tied to the source by a translator (Commit write order, Save* guards, dirty-flag assignments) and by running random programs against the real AppDB. Node level: generated histories executed straight and with restarts on the real node, comparing responses, app hashes, emission, exports.",
                 note=TB + "PARTIAL: caches of the state modules (order book, candidates, ...) are not modelled; for them only the node-level restart differential speaks.",
                 technique="Coq proof (invariant: caches coherent with disk after Commit) + regenerated code shape + differential (AppDB programs, node restarts)"),
